@@ -774,6 +774,10 @@ func (fr *frame) slice(instr *ssa.Slice) value {
 	oob := func(a, b int) {
 		panic(goPanic{m.mkRuntimeError(fmt.Sprintf("slice bounds out of range [%d:%d]", a, b))})
 	}
+	// an explicit negative bound is out of range (it must not be mistaken for "bound absent" below)
+	if (instr.High != nil && hi < 0) || (instr.Max != nil && max < 0) {
+		oob(lo, hi)
+	}
 	switch x := x.(type) {
 	case Str:
 		if hi < 0 {
